@@ -4,6 +4,7 @@ use crate::rng::Rng;
 
 pub mod c01;
 pub mod c02;
+pub mod c04;
 pub mod c16;
 pub mod c15;
 pub mod c11;
@@ -24,7 +25,7 @@ pub mod c10;
 
 /// run the real code for one request; None = unknown function
 pub fn run(r: &Req) -> Option<String> {
-    c01::run(r).or_else(|| c02::run(r)).or_else(|| c16::run(r)).or_else(|| c15::run(r)).or_else(|| c11::run(r)).or_else(|| c20::run(r)).or_else(|| c18::run(r)).or_else(|| c17::run(r)).or_else(|| c12::run(r)).or_else(|| c13::run(r)).or_else(|| c09::run(r)).or_else(|| c03::run(r)).or_else(|| c14::run(r)).or_else(|| c19::run(r)).or_else(|| c06::run(r)).or_else(|| c07::run(r)).or_else(|| c10::run(r))
+    c01::run(r).or_else(|| c02::run(r)).or_else(|| c04::run(r)).or_else(|| c16::run(r)).or_else(|| c15::run(r)).or_else(|| c11::run(r)).or_else(|| c20::run(r)).or_else(|| c18::run(r)).or_else(|| c17::run(r)).or_else(|| c12::run(r)).or_else(|| c13::run(r)).or_else(|| c09::run(r)).or_else(|| c03::run(r)).or_else(|| c14::run(r)).or_else(|| c19::run(r)).or_else(|| c06::run(r)).or_else(|| c07::run(r)).or_else(|| c10::run(r))
 }
 
 /// (request lines, whether the enumerated part was exhaustive over its stated bounds)
@@ -32,6 +33,7 @@ pub fn generate(prop: &str, tier: &str, rng: &mut Rng) -> (Vec<String>, bool) {
     match prop {
         "C01" => c01::generate(tier, rng),
         "C02" => c02::generate(tier, rng),
+        "C04" => c04::generate(tier, rng),
         "C16" => c16::generate(tier, rng),
         "C15" => c15::generate(tier, rng),
         "C11" => c11::generate(tier, rng),
@@ -57,6 +59,7 @@ pub fn rule(prop: &str, tier: &str) -> String {
     match prop {
         "C01" => c01::rule(tier),
         "C02" => c02::rule(tier),
+        "C04" => c04::rule(tier),
         "C16" => c16::rule(tier),
         "C15" => c15::rule(tier),
         "C11" => c11::rule(tier),
@@ -112,6 +115,7 @@ pub fn valid_case(prop: &str, r: &Req) -> bool {
     match prop {
         "C01" => c01::valid_case(r),
         "C02" => c02::valid_case(r),
+        "C04" => c04::valid_case(r),
         "C16" => c16::valid_case(r),
         "C15" => c15::valid_case(r),
         "C11" => c11::valid_case(r),
